@@ -3,8 +3,13 @@
 From torchsnapshot/dist_store.py   LinearBarrier.arrive / depart / report_error / _key
 and  torchsnapshot/snapshot.py     PendingSnapshot.__init__ / _complete_snapshot / wait, Snapshot.async_take
 extract, as Gallina data (types in coq/model/Barrier.v):
-  * per barrier method and per branch (leader / peer) the ordered list of store operations,
-  * the order of the try body and of the except handler of _complete_snapshot,
+  * per barrier method and per branch (leader / peer) the ordered list of store operations; for every store.wait
+    whether its second argument is the method's `timeout` parameter (WTimeoutArg) or missing (WStoreDefault),
+  * the order of the try body and of the except handler of _complete_snapshot (report_error, then exc_info), what the
+    handler catches, and which timeout _complete_snapshot passes to arrive / depart,
+  * gen_wait_has_timeout: every store.wait gets the `timeout` parameter and that parameter is
+    PendingSnapshot.DEFAULT_BARRIER_TIMEOUT (a timedelta) at both call sites; gen_wait_reraises_exc_info: wait()
+    raises exactly when exc_info is set  (together: the justification of the model's TIMEOUT transition),
   * whether the barrier prefix mentions both `path` and `self._barrier_id`, and whether that id is the one
     broadcast from rank 0 in async_take.
 proofs/BarrierInst.v proves that the result equals the skeleton the hand model implements.
@@ -172,13 +177,23 @@ def _ops(stmts, where: str) -> list[str]:
         if isinstance(s, ast.Expr):
             c = _call_of(s.value, "self.store", "wait")
             if c is not None:
-                if len(c.args) != 2 or c.keywords or src(c.args[1]) != "timeout":
+                # store.wait(keys, timeout): raises when the timeout expires.  store.wait(keys) uses the store's own
+                # default timeout (recorded as WStoreDefault: not the code the model was written for).
+                args = list(c.args) + [kw.value for kw in c.keywords]
+                if any(kw.arg not in ("keys", "timeout") for kw in c.keywords) or not 1 <= len(args) <= 2 or \
+                        (c.keywords and c.keywords[0].arg == "keys" and c.args):
                     raise TranslateError(where, f"unexpected wait call {src(s)}")
-                k = c.args[0]
+                if len(args) == 2:
+                    if src(args[1]) != "timeout":
+                        raise TranslateError(where, f"store.wait timeout is not the `timeout` parameter: {src(s)}")
+                    tm = "WTimeoutArg"
+                else:
+                    tm = "WStoreDefault"
+                k = args[0]
                 if isinstance(k, ast.Name) and env.get(k.id) == "KPeers":
-                    out.append("BWait KPeers")
+                    out.append(f"BWait KPeers {tm}")
                 elif isinstance(k, ast.List) and len(k.elts) == 1:
-                    out.append(f"BWait {_key_target(k.elts[0], env, where)}")
+                    out.append(f"BWait {_key_target(k.elts[0], env, where)} {tm}")
                 else:
                     raise TranslateError(where, f"unrecognised wait key list {src(k)}")
                 i += 1
@@ -196,6 +211,9 @@ def _ops(stmts, where: str) -> list[str]:
 
 def _barrier_method(fn: ast.FunctionDef, where: str) -> tuple[list[str], list[str]]:
     """arrive / depart: guards, flag assignment, then `if self.rank == self.leader_rank: A else: B`."""
+    params = [a.arg for a in fn.args.args]
+    if params != ["self", "timeout"] or fn.args.vararg or fn.args.kwarg or fn.args.kwonlyargs or fn.args.defaults:
+        raise TranslateError(where, f"signature is not (self, timeout): {params}")
     body = _body(fn)
     branch = None
     for s in body:
@@ -263,14 +281,17 @@ def _complete_snapshot(cls: ast.ClassDef):
 
     # try body
     tbody = []
+    timeouts = {}
     for s in tr.body:
         text = src(s)
         if isinstance(s, ast.Expr) and _call_of(s.value, "pending_io_work", "sync_complete") is not None:
             tbody.append("CSyncComplete")
         elif isinstance(s, ast.Expr) and _call_of(s.value, "barrier", "arrive") is not None:
             tbody.append("CArrive")
+            timeouts["arrive"] = _timeout_arg(s.value, where)
         elif isinstance(s, ast.Expr) and _call_of(s.value, "barrier", "depart") is not None:
             tbody.append("CDepart")
+            timeouts["depart"] = _timeout_arg(s.value, where)
         elif isinstance(s, ast.If):
             if src(s.test) != f"rank == {leader}" or s.orelse or len(s.body) != 1:
                 raise TranslateError(where, f"unrecognised conditional in the try body: {text[:100]}")
@@ -284,28 +305,49 @@ def _complete_snapshot(cls: ast.ClassDef):
             raise TranslateError(where, f"unrecognised statement in the try body: {text[:100]}")
     # handler
     h = only(tr.handlers, where, "except handler")
-    if not (isinstance(h.type, ast.Name) and h.type.id == "Exception"):
-        raise TranslateError(where, "handler does not catch Exception")
+    # `except Exception [as e]`: what a store.wait timeout (RuntimeError / DistStoreError) and every I/O error is
+    catch = "CatchException" if (isinstance(h.type, ast.Name) and h.type.id == "Exception") else "CatchOther"
     hbody = []
-    sets_exc = False
     for s in h.body:
         text = src(s)
-        if isinstance(s, ast.Expr) and _call_of(s.value, "barrier", "report_error") is not None:
+        c = _call_of(s.value, "barrier", "report_error") if isinstance(s, ast.Expr) else None
+        if c is not None:
+            a = (list(c.args) + [k.value for k in c.keywords])
+            if len(a) != 1 or (h.name is None) or src(a[0]) != f"str({h.name})":
+                raise TranslateError(where, f"report_error is not called with str(<the caught exception>): {text[:100]}")
             hbody.append("CReportError")
         elif isinstance(s, ast.Assign) and text == "self.exc_info = sys.exc_info()":
-            sets_exc = True
+            hbody.append("CRecordExcInfo")
         elif isinstance(s, ast.Expr) and isinstance(s.value, ast.Call) and src(s.value.func) == "logger.warning":
             continue
         else:
             raise TranslateError(where, f"unrecognised statement in the handler: {text[:100]}")
-    if not sets_exc:
-        raise TranslateError(where, "handler does not record exc_info")
     if tr.orelse:
         raise TranslateError(where, "try has an else clause")
     for s in tr.finalbody:
         if src(s) not in ("storage.sync_close(event_loop=event_loop)", "event_loop.close()"):
             raise TranslateError(where, f"unrecognised statement in finally: {src(s)[:100]}")
-    return tbody, hbody, leader, uses_id
+    return tbody, hbody, leader, uses_id, catch, timeouts
+
+
+def _timeout_arg(call: ast.Call, where: str) -> str:
+    """barrier.arrive(timeout=self.DEFAULT_BARRIER_TIMEOUT) -> TDefaultBarrierTimeout; any other single argument -> TOther."""
+    args = list(call.args) + [k.value for k in call.keywords]
+    if len(args) != 1 or (call.keywords and call.keywords[0].arg != "timeout"):
+        raise TranslateError(where, f"unexpected arguments in {src(call)}")
+    return "TDefaultBarrierTimeout" if src(args[0]) in ("self.DEFAULT_BARRIER_TIMEOUT", "PendingSnapshot.DEFAULT_BARRIER_TIMEOUT") else "TOther"
+
+
+def _default_timeout_is_timedelta(cls: ast.ClassDef) -> bool:
+    """class attribute DEFAULT_BARRIER_TIMEOUT = timedelta(<keyword = positive number literal>...)"""
+    for s in cls.body:
+        if isinstance(s, ast.Assign) and len(s.targets) == 1 and src(s.targets[0]) == "DEFAULT_BARRIER_TIMEOUT":
+            v = s.value
+            if not (isinstance(v, ast.Call) and src(v.func) == "timedelta" and not v.args and v.keywords):
+                return False
+            return all(isinstance(k.value, ast.Constant) and isinstance(k.value.value, (int, float)) and k.value.value > 0
+                       for k in v.keywords)
+    return False
 
 
 def _wait_raises_iff_exc_info(cls: ast.ClassDef):
@@ -358,9 +400,15 @@ def generate() -> dict[str, str]:
 
     sn = parse(SNAPSHOT)
     ps = find_class(sn, "PendingSnapshot")
-    tbody, hbody, leader, uses_id = _complete_snapshot(ps)
-    _wait_raises_iff_exc_info(ps)
+    tbody, hbody, leader, uses_id, catch, timeouts = _complete_snapshot(ps)
+    _wait_raises_iff_exc_info(ps)        # raises TranslateError unless wait() raises exactly when exc_info is set
     bcast = _barrier_id_is_broadcast(sn, ps)
+    all_ops = arr_l + arr_p + dep_l + dep_p
+    if any(o.startswith("BWait") for o in rep):
+        raise TranslateError("report_error", "report_error waits on the store")
+    wait_has_timeout = (all(o.endswith("WTimeoutArg") for o in all_ops if o.startswith("BWait")) and
+                        timeouts.get("arrive") == "TDefaultBarrierTimeout" and
+                        timeouts.get("depart") == "TDefaultBarrierTimeout" and _default_timeout_is_timedelta(ps))
 
     out = [
         "(* GENERATED by translator/gen_barrier.py from torchsnapshot/dist_store.py and torchsnapshot/snapshot.py - do not edit *)",
@@ -373,13 +421,22 @@ def generate() -> dict[str, str]:
         f"  sk_depart_peer := {_coq_list(dep_p)};",
         f"  sk_report_error := {_coq_list(rep)};",
         f"  sk_try := {_coq_list(tbody)};",
+        f"  sk_catch := {catch};",
         f"  sk_except := {_coq_list(hbody)};",
+        f"  sk_arrive_timeout := {timeouts.get('arrive', 'TOther')};",
+        f"  sk_depart_timeout := {timeouts.get('depart', 'TOther')};",
         f"  sk_leader_rank := {leader} |}}.",
         "",
         "(* the barrier prefix f-string mentions both `path` and `self._barrier_id` *)",
         f"Definition gen_prefix_uses_barrier_id : bool := {'true' if uses_id else 'false'}.",
         "(* self._barrier_id is the constructor argument and async_take passes the id broadcast from rank 0 *)",
         f"Definition gen_barrier_id_is_broadcast : bool := {'true' if bcast else 'false'}.",
+        "(* every store.wait of arrive/depart passes the method's `timeout` parameter, and _complete_snapshot passes",
+        "   timeout=self.DEFAULT_BARRIER_TIMEOUT (a timedelta class attribute) to both *)",
+        f"Definition gen_wait_has_timeout : bool := {'true' if wait_has_timeout else 'false'}.",
+        "(* PendingSnapshot.wait() joins the thread and raises exactly when exc_info is set (checked by the translator:",
+        "   it refuses to generate this file otherwise) *)",
+        "Definition gen_wait_reraises_exc_info : bool := true.",
         "",
     ]
     return {"BarrierGen": "\n".join(out)}
